@@ -35,6 +35,13 @@ Theorem C16_getattr_shape :
      mixin_bodies.
 Proof. vm_compute. tauto. Qed.
 
+(* on the current source: a class redefines a name of dir(str) only where that is documented (its own __str__, __init__,
+   Wikicode.index / .replace, the title attributes, Template.__getitem__); a new __bool__, __eq__ ... on a class would
+   take a str behaviour away from the mixin *)
+Theorem C16_classes_redefine_only_documented_names : only_documented_redefinitions class_table str_dir = true.
+Proof. vm_compute. reflexivity. Qed.
+
+Print Assumptions C16_classes_redefine_only_documented_names.
 Print Assumptions C16_delegated_equals_str.
 Print Assumptions C16_unknown_raises.
 Print Assumptions C16_magic_bodies_delegate.
